@@ -301,6 +301,39 @@ func (bc *boundsCtx) byLoop(e ast.Expr, base ast.Expr, need needLen, facts []cfg
 		if need.Off == 0 && bc.madeWithLenOf(base, rs.X) && !bc.baseShrinksIn(rs.Body, base) {
 			return "T2 range index over X, base allocated as make(_, len(X))", true
 		}
+		// the index ranges over X under a dominating len(base) == len(X)
+		if need.Off == 0 && !bc.baseShrinksIn(rs.Body, base) && !bc.baseShrinksIn(rs.Body, rs.X) {
+			for _, f := range facts {
+				d, op, ok := bc.cmpLin(f, bc.at)
+				if !ok || op != token.EQL || d.C != 0 || len(d.Atoms) != 2 || d.Coef[0]+d.Coef[1] != 0 || (d.Coef[0] != 1 && d.Coef[0] != -1) {
+					continue
+				}
+				a0, a1 := d.Atoms[0].LenOf, d.Atoms[1].LenOf
+				if a0 == nil || a1 == nil {
+					continue
+				}
+				if (core.SameRef(bc.info, a0, base) && core.SameRef(bc.info, a1, rs.X)) || (core.SameRef(bc.info, a1, base) && core.SameRef(bc.info, a0, rs.X)) {
+					return "T2 range index over X under the dominating guard " + core.ExprStr(f.Cond) + " (equal lengths)", true
+				}
+			}
+		}
+	}
+	// T9 the base is allocated once as make(_, E) and the index runs below the same count E (a getter call such as
+	// rets.Len() whose receiver is not assigned in the function): `x := make(T, r.Len()); for i := 0; i < r.Len(); i++ { x[i] }`
+	if need.Off == 0 {
+		if cnt := bc.madeWithCount(base); cnt != nil {
+			if lo, hasLo := bc.minStart(iv); hasLo && lo >= 0 {
+				for _, f := range facts {
+					b, ok := ast.Unparen(f.Cond).(*ast.BinaryExpr)
+					if !ok || !f.Val || f.Tag != nil || b.Op != token.LSS || core.VarOf(bc.info, b.X) != iv {
+						continue
+					}
+					if bc.sameCount(b.Y, cnt) && !bc.baseShrinksInFunc(base) {
+						return "T9 index below " + core.ExprStr(b.Y) + ", base allocated once as make(_, " + core.ExprStr(cnt) + ")", true
+					}
+				}
+			}
+		}
 	}
 	// `for i := range E` (E an integer expression): inside the body i < E holds like a loop condition
 	for k := len(path) - 1; k >= 0; k-- {
@@ -317,6 +350,22 @@ func (bc *boundsCtx) byLoop(e ast.Expr, base ast.Expr, need needLen, facts []cfg
 	// (b) i >= c0 by construction (set to constants, only incremented), c0 + Off >= 0, and a dominating fact that
 	// reads i + a < len(base) (or <=) in linear form
 	lo, hasLo := bc.minStart(iv)
+	if !hasLo {
+		// a dominating guard on the index itself: `if i < 0 || i >= len(x) { return }`
+		for _, f := range facts {
+			d, op, ok := bc.cmpLin(f, bc.at)
+			if !ok || len(d.Atoms) != 1 || d.coefOfVar(iv) != 1 {
+				continue
+			}
+			// i + d.C op 0
+			switch op {
+			case token.GEQ:
+				lo, hasLo = -d.C, true
+			case token.GTR:
+				lo, hasLo = -d.C+1, true
+			}
+		}
+	}
 	if !hasLo || lo+need.Off < 0 {
 		return "", false
 	}
@@ -460,6 +509,12 @@ func (bc *boundsCtx) nonNegative(v *types.Var) bool {
 			if d.Stmt.(*ast.IncDecStmt).Tok != token.INC {
 				return false
 			}
+		case "opassign":
+			// n += <non-negative>
+			as, ok := d.Stmt.(*ast.AssignStmt)
+			if !ok || as.Tok != token.ADD_ASSIGN || d.Rhs == nil || mentionsVar(bc.info, d.Rhs, v) || !bc.nonNegExpr(d.Rhs, nil) {
+				return false
+			}
 		case "range-key":
 			// integer range key is non-negative
 		default:
@@ -569,4 +624,121 @@ func (bc *boundsCtx) clampedNonNeg(v *types.Var, use ast.Node) bool {
 		// does not dominate the use, which was checked
 	}
 	return true
+}
+
+func mentionsVar(info *types.Info, e ast.Expr, v *types.Var) bool {
+	found := false
+	ast.Inspect(e, func(n ast.Node) bool {
+		if id, ok := n.(*ast.Ident); ok && info.ObjectOf(id) == types.Object(v) {
+			found = true
+		}
+		return !found
+	})
+	return found
+}
+
+// madeWithCount: base is a local whose only definition is make(_, E); it returns E.
+func (bc *boundsCtx) madeWithCount(base ast.Expr) ast.Expr {
+	v := core.VarOf(bc.info, base)
+	if v == nil || v.IsField() {
+		return nil
+	}
+	defs := core.DefsOf(bc.info, bc.f.Root().Body, v)
+	if len(defs) != 1 || defs[0].Rhs == nil {
+		return nil
+	}
+	c, ok := ast.Unparen(defs[0].Rhs).(*ast.CallExpr)
+	if !ok || core.CalleeName(bc.info, c) != "builtin.make" || len(c.Args) != 2 {
+		return nil
+	}
+	return c.Args[1]
+}
+
+// baseShrinksInFunc: the base variable itself is assigned anywhere besides its definition.
+func (bc *boundsCtx) baseShrinksInFunc(base ast.Expr) bool {
+	v := core.VarOf(bc.info, base)
+	return v == nil || len(core.DefsOf(bc.info, bc.f.Root().Body, v)) != 1
+}
+
+// sameCount: two count expressions denote the same number: the same chain of argument-less getter calls (go/types
+// accessors, or methods of the module that are such a chain themselves) on the same variable, which is assigned nowhere
+// in the function.
+func (bc *boundsCtx) sameCount(a, b ast.Expr) bool {
+	a, b = ast.Unparen(a), ast.Unparen(b)
+	if core.ExprStr(a) != core.ExprStr(b) {
+		return false
+	}
+	var pure func(e ast.Expr) bool
+	pure = func(e ast.Expr) bool {
+		switch x := ast.Unparen(e).(type) {
+		case *ast.Ident:
+			v := core.VarOf(bc.info, x)
+			if v == nil {
+				return false
+			}
+			// parameters and receivers have no definition in the body; locals exactly one
+			n := len(core.DefsOf(bc.info, bc.f.Root().Body, v))
+			return n == 0 || (n == 1 && !isParamOf(bc.f.Root(), v))
+		case *ast.SelectorExpr:
+			return pure(x.X)
+		case *ast.CallExpr:
+			if len(x.Args) != 0 {
+				return false
+			}
+			sel, ok := ast.Unparen(x.Fun).(*ast.SelectorExpr)
+			if !ok {
+				return false
+			}
+			fn := core.CalleeFunc(bc.info, x)
+			if fn == nil || fn.Pkg() == nil {
+				return false
+			}
+			if fn.Pkg().Path() != "go/types" && !bc.getterOfOwnPackage(fn) {
+				return false
+			}
+			return pure(sel.X)
+		}
+		return false
+	}
+	return pure(a) && pure(b)
+}
+
+// getterOfOwnPackage: a method of the function's own package whose body is `return <chain of argument-less go/types
+// accessors on a field of the receiver>` (such as `func (r *T) Len() int { return r.sig.Results().Len() }`).
+func (bc *boundsCtx) getterOfOwnPackage(fn *types.Func) bool {
+	if fn.Pkg() != bc.f.Pkg.Types {
+		return false
+	}
+	for _, file := range bc.f.Pkg.Syntax {
+		for _, d := range file.Decls {
+			fd, ok := d.(*ast.FuncDecl)
+			if !ok || fd.Body == nil || bc.info.ObjectOf(fd.Name) != types.Object(fn) || len(fd.Body.List) != 1 {
+				continue
+			}
+			ret, ok := fd.Body.List[0].(*ast.ReturnStmt)
+			if !ok || len(ret.Results) != 1 {
+				return false
+			}
+			e := ast.Unparen(ret.Results[0])
+			for {
+				switch x := e.(type) {
+				case *ast.CallExpr:
+					callee := core.CalleeFunc(bc.info, x)
+					sel, isSel := ast.Unparen(x.Fun).(*ast.SelectorExpr)
+					if len(x.Args) != 0 || !isSel || callee == nil || callee.Pkg() == nil || callee.Pkg().Path() != "go/types" {
+						return false
+					}
+					e = ast.Unparen(sel.X)
+					continue
+				case *ast.SelectorExpr:
+					e = ast.Unparen(x.X)
+					continue
+				case *ast.Ident:
+					return fd.Recv != nil && len(fd.Recv.List) == 1 && len(fd.Recv.List[0].Names) == 1 && bc.info.ObjectOf(x) == bc.info.ObjectOf(fd.Recv.List[0].Names[0])
+				}
+				return false
+			}
+		}
+	}
+	return false
 }
